@@ -415,13 +415,16 @@ def build_wfmt(fmt):
         heavy = fmt in ("molden", "molekel")
         conv = {"molden": "molden", "molekel": "molden", "wfn": "wfn", "wfx": "wfn"}[fmt]
         shells = [(0, [0], ["c"], 2), (1, [1], ["c"], 1)][:max(1, natom)]
+        if variant == "unsorted":
+            # shells stored in no particular centre order (a legitimate basis, e.g. grouped by angular momentum)
+            shells = [(1, [0], ["c"], 1), (0, [1], ["c"], 1), (1, [1], ["c"], 1)]
         atoms = [(8, None), (1, None)][:natom]
         uhf = variant == "uhf"
         kw = wfobj.make_wf(ctx, atoms, shells, conv=conv, mo_kind="unrestricted" if uhf else "restricted", norb=2,
                            occ="uhf-odd" if uhf else "closed", coords_sym=not heavy, contraction_sym=False, sym=not heavy)
         exp = {"atnums": kw["atnums"], "atcoords": kw["atcoords"], "@wavefunction": True}
         tol = dict(atcoords=2e-6 if fmt == "molekel" else 1e-7)
-        full = variant in ("full", "uhf", "ecp")
+        full = variant in ("full", "uhf", "ecp", "unsorted")
         if fmt in ("wfn", "wfx", "molden") and full:
             kw["title"] = f"3 21 {fmt} title"
             exp["title"] = kw["title"]
